@@ -2029,6 +2029,16 @@ class Walker:
                     if e.attr not in LIBRARY_CONSTANTS and isinstance(val, (int, float)) and not isinstance(val, bool):
                         # a constant the library did not have (a literal that was given a name): the number it names
                         return ("const", val)
+                    if e.attr not in LIBRARY_CONSTANTS and isinstance(val, tuple) and val and val[0] == "expr":
+                        # ... or the float limit under another name (LOWEST = -sys.float_info.max)
+                        fm = self.repo.constants.get("FLOAT_MAX")
+                        txt = val[1].replace(" ", "")
+                        if isinstance(fm, tuple) and fm and fm[0] == "expr":
+                            lim = fm[1].replace(" ", "")
+                            if txt in (lim, "FLOAT_MAX"):
+                                return ("K", "FLOAT_MAX")
+                            if txt in ("-" + lim, "-FLOAT_MAX", "-(" + lim + ")", "-1*" + lim, lim + "*-1", "FLOAT_MAX*-1", "-1*FLOAT_MAX"):
+                                return ("neg", ("K", "FLOAT_MAX"))
                     return self.subst.get(("K", e.attr), ("K", e.attr))
                 mi2 = self.repo.modules.get(base[1])
                 if mi2 is not None and base[1].startswith("opfython"):
@@ -2295,6 +2305,11 @@ class Walker:
             if fn in (("mod", "numpy.asarray"), ("mod", "numpy.asanyarray"), ("mod", "numpy.float64")) and (
                     not kwargs or kwargs == (("dtype", ("mod", "numpy.float64")),) or kwargs == (("dtype", ("builtin", "float")),)):
                 return args[0]
+        # int(n) of something that is an integer already (a node count, a length, best_k / k bounds kept on the graph)
+        if fn == ("builtin", "int") and len(args) == 1 and not kwargs and (
+                (args[0][0] == "attr" and args[0][2] in ("n_nodes", "n_features", "best_k", "n_clusters", "size", "last"))
+                or (args[0][0] == "call" and args[0][1] == ("builtin", "len"))):
+            return args[0]
         # operator.index(x) is x for every integer x (and an error otherwise)
         if fn in (("mod", "operator.index"), ("mod", "_operator.index")) and len(args) == 1 and not kwargs:
             return args[0]
